@@ -37,6 +37,8 @@ class Stock(Element):
     def initial_value(self, initial_value):
         if isinstance(initial_value, (float, Constant, Converter)):
             self.__initial_value = initial_value
+            # dependent elements may have memoised values computed from the old initial value
+            self.model.reset_cache()
             self.build_function_string()
             self.generate_function()
         else:
